@@ -148,6 +148,7 @@ func (r *Runtime) arrayproto_pop(call FunctionCall) Value {
 			//a._setLengthInt(l, false)
 			a.values[l] = nil
 			a.values = a.values[:l]
+			a.objCount--
 		} else {
 			val = _undefined
 		}
@@ -550,7 +551,7 @@ func (r *Runtime) arrayproto_unshift(call FunctionCall) Value {
 				arr.values = values
 			}
 			copy(arr.values, call.Arguments)
-			arr.objCount = int(arr.length)
+			arr.objCount = len(arr.values)
 		} else {
 			for k := length - 1; k >= 0; k-- {
 				from := valueInt(k)
@@ -1016,6 +1017,7 @@ func (r *Runtime) arrayproto_shift(call FunctionCall) Value {
 		a.values[len(a.values)-1] = nil
 		a.values = a.values[:len(a.values)-1]
 		a.length--
+		a.objCount--
 		return first
 	}
 	length := toLength(o.self.getStr("length", nil))
